@@ -18,7 +18,7 @@ class BasicAuthRequestScheme(object):
 		#	raise InvalidHeader(_(u'Invalid base64 in basic authentication'))
 
 		try:
-			username, password = decode_base64(authinfo.strip()).split(b':')
+			username, password = decode_base64(authinfo.strip()).split(b':', 1)
 		except Base64Error:
 			raise InvalidHeader(_(u'Basic authentication contains invalid base64'))
 		except ValueError:
@@ -38,7 +38,7 @@ class BasicAuthRequestScheme(object):
 		password = authinfo['password']
 		#username = username.encode('ISO8859-1')
 		#password = password.encode('ISO8859-1')
-		return encode_base64(b'%s:%s' % (username, password)).strip()
+		return encode_base64(b'%s:%s' % (username, password)).replace(b'\n', b'')
 
 
 class BasicAuthResponseScheme(object):
